@@ -462,6 +462,8 @@ func lexicalEndTagBroken(src string) bool {
 
 type posErr interface{ Start() parse.Pos }
 
+var errInRe = regexp.MustCompile(`column \d+ in (.*)$`)
+
 var errPosRe = regexp.MustCompile(`on line (\d+), column (\d+)`)
 
 // errTextProblem reports what is wrong with the text of an error whose position is (l, c): the text is what
@@ -821,6 +823,7 @@ const c20BadReader = "\x00badreader"
 
 var c20Broken = []string{
 	c20Missing, c20BadReader,
+	"{% block a %}x{% endblock %}{% block a %}y{% endblock %}", "{% block outer %}{% block inner %}{% endblock %}{% endblock %}\n{% block inner %}again{% endblock %}", "{% embed 'e' %}{% block q %}1{% endblock %}{% block q %}2{% endblock %}{% endembed %}",
 	"ok {% if x %} unclosed", "a {{ 1 + }} b", "x {% zork %} y", "{{ 'unclosed }}", "line1\nline2 {% for %}", "{% block b %}", "{{ a @ b }}", "{% include %}",
 	"a\n{% for 1 in b %}x{% endfor %}", "{% for k, 2 in b %}x{% endfor %}", "{% for a in b c %}x{% endfor %}", "{% for a b %}x{% endfor %}", "{% for a in %}x{% endfor %}", "{% for a in b if %}x{% endfor %}",
 	"a {{ x is 2 }}", "{{ x is 'lit' }}", "{{ x is '100%' }}", "{% for '%d items' in xs %}x{% endfor %}", "{{ n is (m % 2) }}", "{% for 12.5 in xs %}x{% endfor %}", "{{ '%s' 1 }}", "{% %s %}", "{{ x is }}", "{{ x is not }}", "{{ a ? b }}", "{{ a ? : }}", "{{ (a }}", "{{ a) }}", "{{ [a }}", "{{ {a: } }}", "{{ {'a' 1} }}", "{{ a[ }}", "{{ a. }}", "{{ a|  }}", "{{ f(a, }}", "{{ a.b( }}",
@@ -955,6 +958,10 @@ func (p *c20) runNamed(res *fw.Result, j int) {
 				}
 				if !named {
 					res.Fail("template-not-named", key, fmt.Sprintf("error %q raised while loading %q via %s does not identify the template", err, bname, v), in)
+				}
+				// a message that says where ("... on line L, column C in NAME") names the template, not something else
+				if m := errInRe.FindStringSubmatch(err.Error()); m != nil && m[1] != bname {
+					res.Fail("template-not-named", key+":text", fmt.Sprintf("the message of the error raised while loading %q via %s says it happened in %q: %s", bname, v, m[1], err), in)
 				}
 				res.AddObs("named_errors_checked", 1)
 			}
